@@ -248,7 +248,10 @@ pub fn run_batch(prop: Box<dyn Property>, tier: Tier) -> BatchResult {
             for s in slots.iter() {
                 let idx = s.0.load(Ordering::SeqCst);
                 let st = s.1.load(Ordering::SeqCst);
-                if idx > 0 && now.saturating_sub(st) > 45_000 {
+                // (the thorough tier has scenarios that take tens of seconds on a loaded
+                // machine: its limits are wider)
+                let stall_ms: u64 = if tier == Tier::Quick { 45_000 } else { 150_000 };
+                if idx > 0 && now.saturating_sub(st) > stall_ms {
                     let index = idx - 1;
                     // the scenario is re-run alone in a fresh process before anything is
                     // reported: a stall of this (possibly overloaded) process is not a hang
@@ -257,7 +260,7 @@ pub fn run_batch(prop: Box<dyn Property>, tier: Tier) -> BatchResult {
                         continue;
                     }
                     let case = generate_case(prop.as_ref(), seed, index, tier);
-                    let path = write_replay(&root, prop.id(), index, seed, &case, "hang", "a single scenario ran for more than 45 s inside the batch and again for more than 90 s alone in a fresh process without returning");
+                    let path = write_replay(&root, prop.id(), index, seed, &case, "hang", "a single scenario ran for more than 45 s (thorough tier: 150 s) inside the batch and again for more than 90 s (360 s) alone in a fresh process without returning");
                     println!(
                         "VIOLATION property={} replay={} rule={}.hang (wall-clock backstop; not minimised)",
                         prop.id(),
@@ -779,7 +782,7 @@ fn hangs_in_isolation(id: &str, index: u64, tier: Tier) -> bool {
         .spawn();
     drop(_shared);
     match child {
-        Ok(mut c) => wait_limited(&mut c, Duration::from_secs(90)).is_none(),
+        Ok(mut c) => wait_limited(&mut c, Duration::from_secs(if tier == Tier::Quick { 90 } else { 360 })).is_none(),
         Err(_) => true,
     }
 }
